@@ -116,7 +116,10 @@ class VTask(Task):
                 outs = self._outputs(script, stage, ctx, sname)
                 if script.get("jump_out"):  # published only by an iteration that is then abandoned by the jump
                     outs.update(self._outputs({"out": script["jump_out"]}, stage, ctx, sname))
-                return TaskResult.jump_to(script["target"], outputs=outs)
+                tgt = script["target"]
+                if isinstance(tgt, (list, tuple)):  # the n-th jump goes to the n-th target
+                    tgt = tgt[min(n, len(tgt) - 1)]
+                return TaskResult.jump_to(tgt, outputs=outs)
             entry["step"] = "ok"
             return TaskResult.success(outputs=self._outputs(script, stage, ctx, sname))
         if kind == "suspend":
